@@ -58,7 +58,7 @@ def run_case(case, sched_seed=None, choose=None):
                 s["raw"] = jsonable(seg["evs"])
             run["segs"].append(s)
         rec["runs"].append(run)
-        if st[0] == "raise":
+        if st[0] != "ok":
             break
     return rec
 
